@@ -484,7 +484,12 @@ def apply_payload(mod, tname, p):
         if "curve" in p:
             mod.curve.values[:] = p["curve"]
         for i, *fields in p.get("mappings", []):
-            mod.mappings.values[i] = cls.Mapping(tuple(fields))
+            if p.get("_in_place"):
+                # edit the existing Mapping object field by field
+                mp = mod.mappings.values[i]
+                mp.min, mp.max, mp.controller, mp.flags, mp.future_use2, mp.future_use3, mp.future_use4, mp.future_use5 = fields
+            else:
+                mod.mappings.values[i] = cls.Mapping(tuple(fields))
     elif tname == "SpectraVoice":
         for i, freq, vol, width, typ in p.get("harmonics", []):
             h = mod.harmonics[i]
@@ -526,7 +531,10 @@ def apply_payload(mod, tname, p):
         if p.get("project") is not None:
             fill_project(mod.project, p["project"])
         for i, mi, ci in p.get("mappings", []):
-            mod.mappings.values[i] = cls.Mapping((mi, ci))
+            if p.get("_in_place"):
+                mod.mappings.values[i].module, mod.mappings.values[i].controller = mi, ci
+            else:
+                mod.mappings.values[i] = cls.Mapping((mi, ci))
         mod.user_defined_controllers = p.get("count", 0)
         for i, text in p.get("labels", []):
             mod.user_defined[i].label = text
@@ -546,6 +554,18 @@ def make_module(ms):
     for name, v in ms.get("ctor", []):
         kw[name] = lib_value(cls, name, v)
     mod = cls(**kw)
+    return apply_spec(mod, ms)
+
+
+def apply_spec(mod, ms):
+    """Apply the assignments of a module recipe to an existing module of that type (used both for
+    construction and for editing an object that already exists / was already saved)."""
+    from rv.cmidmap import MidiMessageType, Slope
+
+    tname = ms["type"]
+    cls = type(mod)
+    for name, v in ms.get("ctor", []) if ms.get("_ctor_as_sets") else []:
+        setattr(mod, name, lib_value(cls, name, v))
     for name, v in ms.get("sets", []):
         setattr(mod, name, lib_value(cls, name, v))
     for name, v in ms.get("options", []):
@@ -560,7 +580,10 @@ def make_module(ms):
         mm.channel = channel
         mm.slope = Slope(slope)
         mm.message_parameter = param
-    apply_payload(mod, tname, ms.get("payload", {}))
+    payload = ms.get("payload", {})
+    if ms.get("_ctor_as_sets"):
+        payload = dict(payload, _in_place=True)  # editing an existing object: touch its entries in place
+    apply_payload(mod, tname, payload)
     return mod
 
 
